@@ -769,3 +769,28 @@ func closureVarNameNoCheck(fn *ssa.Function) string {
 	}
 	return ""
 }
+
+// assignTextAt: "lhs op" of the assignment / inc-dec statement enclosing pos (e.g. "wt.nowWraps +=").
+func (c *Ctx) assignTextAt(pos token.Pos) string {
+	p := c.fset.Position(pos)
+	f := c.files[p.Filename]
+	if f == nil {
+		return ""
+	}
+	path, _ := astutil.PathEnclosingInterval(f, pos, pos+1)
+	for _, n := range path {
+		switch x := n.(type) {
+		case *ast.AssignStmt:
+			for _, l := range x.Lhs {
+				if l.Pos() <= pos && pos <= l.End() || len(x.Lhs) == 1 {
+					return compact(types.ExprString(l) + " " + x.Tok.String())
+				}
+			}
+		case *ast.IncDecStmt:
+			return compact(types.ExprString(x.X) + x.Tok.String())
+		case ast.Stmt:
+			return ""
+		}
+	}
+	return ""
+}
